@@ -25,7 +25,7 @@ ASSUMPTIONS = ["one case in four enters dimensionless size ratios below their de
                "unit strings '', None, 'none' count as dimensionless; 'degrees' as angle; type 'sld' as SLD",
                "rtol 1e-7 (conforming models agree to 1e-10..1e-15, offenders are off by 1e-2..0.9)"]
 REQUIRED_MONITORS = ["length_scaling_I", "length_scaling_Fq", "sld_scaling"]
-REQUIRED_BUCKETS = {"quick": ["pd:on", "pd:off", "mode>0", "dim:2d"]}
+REQUIRED_BUCKETS = {"quick": ["pd:on", "pd:off", "mode>0", "dim:2d", "mesh>100:mode>0", "dist:lognormal", "dist:schulz", "dist:gaussian"]}
 REQUIRED_BUCKETS["thorough"] = REQUIRED_BUCKETS["quick"]
 
 UNIT_EXP = {"Ang": 1, "Ang^2": 2, "Ang^3": 3, "1/Ang": -1, "1/Ang^2": -2, "1/Ang^3": -3, "Ang^-1": -1, "Ang^-2": -2}
@@ -101,9 +101,14 @@ def run_case(case, rec):
     pars["background"] = 0.0
     pd_on = (k % 2 == 1)
     dim = "2d" if (k % 4 == 2 and not sas.is_python(i)) else "1d"
+    # every fourth case: a mesh of more than 100 points (the compiled kernel is re-entered with its running
+    # totals, among them the dimensionful R_eff and volume sums) with an effective-radius mode requested
+    big = pd_on and k % 4 == 1 and dim == "1d" and not sas.is_python(i) and sas.eval_cost(i, "1d") < 2e-4
     if pd_on:
         cand = sas.usable_pd(i, pars, dim)
         rng.shuffle(cand)
+        if big:
+            cand = [p for p in cand if p.type != "orientation"]
         for p in cand[:2]:
             if p.type == "orientation":
                 sas.add_pd(pars, p, "gaussian", 3, float(rng.uniform(3, 15)), 2.0)
@@ -114,7 +119,13 @@ def run_case(case, rec):
                 # keep the window inside the limits for the scaled copy too
                 w = min(float(rng.uniform(0.05, 0.2)), 0.3*room/2.0)
                 if w > 0:
-                    sas.add_pd(pars, p, ["gaussian", "schulz"][int(rng.integers(2))], 4, w, 2.0)
+                    dist = ["gaussian", "schulz", "lognormal"][int(rng.integers(3))]
+                    sas.add_pd(pars, p, dist, (11 if big else 4), w, 2.0)
+                    rec.bucket("dist:" + dist)
+    if big and len([kk for kk in pars if kk.endswith("_pd_n") and pars[kk] == 11]) >= 2:
+        rec.bucket("mesh>100")
+    else:
+        big = False
     rec.bucket("pd:on" if pd_on else "pd:off", "dim:" + dim)
     lam, mu = float(rng.uniform(0.3, 3.0)), float(rng.uniform(0.3, 3.0))
     size = sas.size_scale(i, pars)
@@ -128,6 +139,9 @@ def run_case(case, rec):
     kf = lambda qq: model.make_kernel(qq)
     modes = i.radius_effective_modes or []
     mode = int(rng.integers(0, len(modes) + 1))
+    if big and modes:
+        mode = int(rng.integers(1, len(modes) + 1))
+        rec.bucket("mesh>100:mode>0")
     if mode:
         rec.bucket("mode>0")
     bg = pars.get("background", 0.0)
